@@ -256,6 +256,23 @@ func runCase(c caseT, r *core.Result, deep bool) {
 		r.Add("validations_map_order", 1)
 	}
 
+	// (2b) a miner with another execution history: the factory of this worker has mined hundreds of
+	// other lists on this very parent before (and none of them was saved); a miner that has just
+	// restarted from the data directory and never executed anything on this parent must produce the
+	// same block from the same list.
+	{
+		fm := &node.Factory{Node: restarted()}
+		b8, _, err8 := fm.Make(node.BlockSpec{Parent: w.Head, Miner: node.Deputy(0), Time: tm, Txs: w.Txs(c.List), Extra: "c01", NoSave: true})
+		w.F.Use()
+		r.Add("fresh_miner_variants", 1)
+		if err8 != nil {
+			viol("miner-history/no-block", fmt.Sprintf("a miner restarted from disk produces no block (%v) where the long-running one does", err8))
+		} else if b8.Hash() != blk.Hash() {
+			viol("miner-history/changes-block/"+headerDiff(blk, b8), fmt.Sprintf("a miner restarted from disk mines another block (%s; packaged %d vs %d) than the long-running miner that executed other lists on the same parent before", headerDiff(blk, b8), len(b8.Txs), len(blk.Txs)))
+		}
+		fm.Destroy()
+	}
+
 	// (1b) the block is full: for every gas limit at which the miner's gas pool runs dry right at one
 	// of the transactions (or, inside a box, at one of its sub-transactions) the miner drops what does
 	// not fit. The dropped transactions must leave no trace: the block equals the one mined with the
@@ -293,6 +310,48 @@ func runCase(c caseT, r *core.Result, deep bool) {
 		v3 := restarted()
 		checkB(fmt.Sprintf("restarted(full-block)"), v3, b3, ms3, p3)
 		v3.Destroy()
+		// discarded candidates in a nearly full block. WHICH transactions fit may legitimately depend on
+		// what the miner tried before (the gas a failing candidate reserved stays taken from the pool;
+		// the statement is about executing the packaged list, not about the miner's selection), so a
+		// different selection is only counted. But whatever was selected, the block must be the one
+		// obtained from exactly the packaged transactions, and a validator must accept it.
+		for _, d := range chainkit.Discards {
+			for pos := 0; pos <= len(c.List); pos++ {
+				with := append(append(append([]string{}, c.List[:pos]...), d), c.List[pos:]...)
+				var ms6 map[common.Address]string
+				b6, _, err6 := w.F.Make(node.BlockSpec{Parent: w.Head, Miner: node.Deputy(0), Time: tm, Txs: w.Txs(with), Extra: "c01", NoSave: true, GasLimit: limit,
+					Inspect: func(am *account.Manager, b *types.Block) {
+						ms6 = map[common.Address]string{}
+						for _, a := range addrsOf(b) {
+							ms6[a] = minerDump(am, w.Head.Hash(), a)
+						}
+					}})
+				r.Add("discard_variants_in_full_block", 1)
+				if err6 != nil {
+					viol("full-block/discard-changes-outcome/no-block/"+d, fmt.Sprintf("with block gas limit %d and discard candidate %q at position %d the miner produces no block (%v)", limit, d, pos, err6))
+					continue
+				}
+				if b6.Hash() == b3.Hash() {
+					continue
+				}
+				r.Add("discard_changed_selection_in_full_block(not asserted)", 1)
+				p6 := make([]string, len(b6.Txs))
+				for i, tx := range b6.Txs {
+					p6[i] = w.NameOf(tx)
+				}
+				b7, _, err7 := w.F.Make(node.BlockSpec{Parent: w.Head, Miner: node.Deputy(0), Time: tm, Txs: w.Txs(p6), Extra: "c01", NoSave: true, GasLimit: limit})
+				if err7 != nil || b7.Hash() != b6.Hash() {
+					dd := "no-block"
+					if err7 == nil {
+						dd = headerDiff(b6, b7)
+					}
+					viol("full-block/discarded-candidate-leaves-trace/"+d+"/"+dd, fmt.Sprintf("with block gas limit %d and discard candidate %q at position %d the miner packages %v, but the block differs (%s) from the one mined from exactly these transactions (err %v)", limit, d, pos, p6, dd, err7))
+				}
+				v6 := restarted()
+				checkB("restarted(full-block+discard:"+d+")", v6, b6, ms6, p6)
+				v6.Destroy()
+			}
+		}
 	}
 
 	// (3) fresh validator with a different prior history: it first executes and rejects a corrupted sibling
